@@ -344,6 +344,7 @@ type roundOpts struct {
 	evict           int    // nodes forget a prepared statement after this many executions
 	bigEvery        int    // every n-th plain answer is about 20 KiB
 	burstsForwarded bool   // the bursts consist of forwarded queries only (48..127 per write)
+	stallDrops      int    // times a node stops reading for a while and then loses its connections, with bulky requests queued for it
 	slowReaders     int    // clients that pipeline thousands of queries and read late
 	nonReaders      int    // ... and never read but hang up
 	override        bool   // configure a write-consistency override that applies to every write of the workload
@@ -638,6 +639,61 @@ func runRound(scs []*reqScenario, nodes, numConns, nclients, workers int, out st
 			}
 		}(k)
 	}
+	// a node stops reading (the proxy's writes to it block, requests pile up in the write queues of its connections) and
+	// then loses its connections: everything queued and unwritten goes down with them and is retried elsewhere
+	stopStall := make(chan struct{})
+	var stallWg sync.WaitGroup
+	if ro.stallDrops > 0 {
+		stallWg.Add(1)
+		go func() {
+			defer stallWg.Done()
+			rnd := newRand(salt + 4242)
+			for i := 0; i < ro.stallDrops; i++ {
+				select {
+				case <-stopStall:
+					return
+				case <-time.After(time.Duration(150+rnd.Intn(200)) * time.Millisecond):
+				}
+				e.C.StallThenDrop(e.IPs[rnd.Intn(len(e.IPs))], 250*time.Millisecond)
+			}
+		}()
+		// bulky requests (a 96 KiB value each) keep the sockets towards the nodes full
+		for k := 0; k < 3; k++ {
+			stallWg.Add(1)
+			go func(k int) {
+				defer stallWg.Done()
+				bc, err := e.StartedClient(primitive.ProtocolVersion4, ro.compression)
+				if err != nil {
+					return
+				}
+				defer bc.Close()
+				blob := make([]byte, 96<<10)
+				for it := 0; ; it++ {
+					select {
+					case <-stopStall:
+						return
+					default:
+					}
+					var frms []*frame.Frame
+					var toks, classes []string
+					for q := 0; q < 24; q++ {
+						tok := rr.newToken()
+						frms = append(frms, frame.NewFrame(primitive.ProtocolVersion4, int16(600+q), &message.Query{Query: fmt.Sprintf(idemStmts[0], tok),
+							Options: &message.QueryOptions{Consistency: primitive.ConsistencyLevelOne, PositionalValues: []*primitive.Value{primitive.NewValue(blob)}}}))
+						toks = append(toks, tok)
+						classes = append(classes, "idem|QUERY|bulk")
+					}
+					from := bc.Count()
+					if bc.SendMany(frms, toks, classes) != nil {
+						return
+					}
+					if !bc.WaitCount(from+24, 8*time.Second) {
+						return
+					}
+				}
+			}(k)
+		}
+	}
 	// slow consumers: a client pipelines a few thousand queries (with -bigevery 1 every answer is about 20 KiB) and does
 	// not read for a while: the answers pile up in the socket buffers and in the proxy's write queue for it.  A slow
 	// reader reads on in the end and must get every answer exactly once; a non-reader hangs up instead, and everybody
@@ -732,6 +788,8 @@ func runRound(scs []*reqScenario, nodes, numConns, nclients, workers int, out st
 	churnWg.Wait()
 	close(stopBursts)
 	burstWg.Wait()
+	close(stopStall)
+	stallWg.Wait()
 	slowWg.Wait()
 	close(stopDrops)
 	// quiescence: nothing logged for the window
@@ -796,6 +854,7 @@ func init() {
 		restarts := fs.Int("restarts", 0, "random node restarts per round (connections dropped, prepared statements forgotten)")
 		addNode := fs.Bool("addnode", false, "a node joins after the proxy connected")
 		lateAddNode := fs.Bool("lateaddnode", false, "a node joins after the clients' sessions were created")
+		stallDrops := fs.Int("stalldrops", 0, "times a node stops reading for 250 ms and then drops its connections, while clients send bulky requests")
 		slowReaders := fs.Int("slowreaders", 0, "clients that pipeline 2600 queries and start reading 1.8 s later")
 		nonReaders := fs.Int("nonreaders", 0, "clients that pipeline 2600 queries, never read and hang up after 1.5 s")
 		burstsForwarded := fs.Bool("burstsforwarded", false, "the bursts of -localbursts consist of forwarded queries only (48..127 per write)")
@@ -870,7 +929,7 @@ func init() {
 				j = len(scs)
 			}
 			if err := runRound(scs[i:j], *nodes, *numConns, *nclients, *workers, *out, st, *dropRate, int64(k), *maxDelay,
-				roundOpts{compression: *compression, restarts: *restarts, addNode: *addNode, lateAddNode: *lateAddNode, evict: *evict, bigEvery: *bigEvery, burstsForwarded: *burstsForwarded, slowReaders: *slowReaders, nonReaders: *nonReaders, stallMs: *stallMs, holdMs: *holdMs, override: *override, noDrops: *noDrops, idleClose: *idleClose, preCompression: *preCompression, postCompression: *postCompression, churn: *churn, localBursts: *localBursts}); err != nil {
+				roundOpts{compression: *compression, restarts: *restarts, addNode: *addNode, lateAddNode: *lateAddNode, evict: *evict, bigEvery: *bigEvery, burstsForwarded: *burstsForwarded, stallDrops: *stallDrops, slowReaders: *slowReaders, nonReaders: *nonReaders, stallMs: *stallMs, holdMs: *holdMs, override: *override, noDrops: *noDrops, idleClose: *idleClose, preCompression: *preCompression, postCompression: *postCompression, churn: *churn, localBursts: *localBursts}); err != nil {
 				return err
 			}
 		}
